@@ -4,6 +4,7 @@ Helper lemmas for Properties/C05.lean (Secure Binary 3.1).  Core Lean only.
 import SpsdkVerif.Model.Sb31
 import SpsdkVerif.Proofs.Misc
 import SpsdkVerif.Proofs.Crypto
+import SpsdkVerif.Crypto.Break
 
 namespace SpsdkVerif.Sb31
 open SpsdkVerif SpsdkVerif.Misc SpsdkVerif.Crypto SpsdkVerif.Generated
@@ -459,16 +460,17 @@ theorem encHeader_length (h : Header) (hd : h.description.length = 16) : (encHea
 
 /-! ## block 0 -/
 
-theorem parseBlock0_ok (c : CryptoOps) (rotkh : Bytes) (H : Header) (hwf : HeaderWF H) (hl : Nat)
+theorem parseBlock0_gen (c : CryptoOps) (rotkh : Bytes) (H : Header) (hwf : HeaderWF H) (hl : Nat)
     (hhl : hl = 32 ∨ hl = 48) (hbs : H.blockSize = 260 + hl) (hco : H.certOffset = 60 + hl)
     (hit : H.imageType = 6 ∨ H.imageType = 7) (hbc : 1 ≤ H.blockCount)
     (h1 cert sig data : Bytes) (hh1 : h1.length = hl) (htot : H.totalLength = 60 + hl + cert.length + 2 * hl)
     (hsig : sig.length = 2 * hl) (ci : CertInfo) (obs : List SigOb) (hcert : romCert c rotkh cert = .ok (ci, obs))
     (hcoord : ci.coord = hl)
-    (hver : c.verify (.ecdsa (algOfCoord hl)) ci.signPub (encHeader H ++ (h1 ++ cert)) sig = true)
-    (hdata : data.length = H.blockCount * H.blockSize) :
+    (hver : c.verify (.ecdsa (algOfCoord hl)) ci.signPub (encHeader H ++ (h1 ++ cert)) sig = true) :
     parseBlock0 c rotkh (encHeader H ++ (h1 ++ (cert ++ (sig ++ data)))) =
-      .ok ⟨H, hl, h1, obs ++ [⟨hl, ci.signPub, encHeader H ++ (h1 ++ cert), sig⟩], data⟩ := by
+      if data.length = H.blockCount * H.blockSize
+      then .ok ⟨H, hl, h1, obs ++ [⟨hl, ci.signPub, encHeader H ++ (h1 ++ cert), sig⟩], data⟩
+      else .error .fileLength := by
   have htake : (encHeader H ++ (h1 ++ (cert ++ (sig ++ data)))).take (H.totalLength - 2 * hl) = encHeader H ++ (h1 ++ cert) := by
     have e : encHeader H ++ (h1 ++ (cert ++ (sig ++ data))) = (encHeader H ++ (h1 ++ cert)) ++ (sig ++ data) := by
       simp [List.append_assoc]
@@ -485,7 +487,22 @@ theorem parseBlock0_ok (c : CryptoOps) (rotkh : Bytes) (H : Header) (hwf : Heade
   have hc4 : decide (60 + hl + 2 * hl ≤ H.totalLength) = true := by simp [htot]
   have hlen : H.totalLength - 2 * hl - (60 + hl) = cert.length := by omega
   simp only [check, hc1, hc2, hc3, hc4, if_true, takeB_append h1 _ hl hh1, hlen, takeB_append cert _ _ rfl,
-    takeB_append sig data _ hsig, hcert, hcoord, beq_self_eq_true, hver, hdata, pure, Except.pure]
+    takeB_append sig data _ hsig, hcert, hcoord, beq_self_eq_true, hver, pure, Except.pure]
+  by_cases hd : data.length = H.blockCount * H.blockSize
+  · simp [hd]
+  · simp [hd]
+
+theorem parseBlock0_ok (c : CryptoOps) (rotkh : Bytes) (H : Header) (hwf : HeaderWF H) (hl : Nat)
+    (hhl : hl = 32 ∨ hl = 48) (hbs : H.blockSize = 260 + hl) (hco : H.certOffset = 60 + hl)
+    (hit : H.imageType = 6 ∨ H.imageType = 7) (hbc : 1 ≤ H.blockCount)
+    (h1 cert sig data : Bytes) (hh1 : h1.length = hl) (htot : H.totalLength = 60 + hl + cert.length + 2 * hl)
+    (hsig : sig.length = 2 * hl) (ci : CertInfo) (obs : List SigOb) (hcert : romCert c rotkh cert = .ok (ci, obs))
+    (hcoord : ci.coord = hl)
+    (hver : c.verify (.ecdsa (algOfCoord hl)) ci.signPub (encHeader H ++ (h1 ++ cert)) sig = true)
+    (hdata : data.length = H.blockCount * H.blockSize) :
+    parseBlock0 c rotkh (encHeader H ++ (h1 ++ (cert ++ (sig ++ data)))) =
+      .ok ⟨H, hl, h1, obs ++ [⟨hl, ci.signPub, encHeader H ++ (h1 ++ cert), sig⟩], data⟩ := by
+  rw [parseBlock0_gen c rotkh H hwf hl hhl hbs hco hit hbc h1 cert sig data hh1 htot hsig ci obs hcert hcoord hver, if_pos hdata]
 
 /-! ## the export as a whole -/
 
@@ -681,5 +698,112 @@ theorem good_of_frame {c : CryptoOps} (s s' : ObjState) (hg : Good c s) (h1 : s'
 theorem run_good {c : CryptoOps} (s : ObjState) (hg : Good c s) (ops : List Op) : Good c (run c s ops) :=
   let h := run_frame c ops s
   good_of_frame s _ hg h.1 h.2.1 h.2.2.1
+
+
+/-! ## binding: one signature authenticates the data blocks -/
+
+theorem takeB_ok {n : Nat} {b x r : Bytes} (h : takeB n b = .ok (x, r)) : b = x ++ r ∧ x.length = n := by
+  unfold takeB at h
+  split at h
+  · injection h with h; injection h with h1 h2
+    subst h1; subst h2
+    exact ⟨(List.take_append_drop n b).symm, by simp; omega⟩
+  · cases h
+
+theorem takeU_ok {n : Nat} {b r : Bytes} {v : Nat} (h : takeU n b = .ok (v, r)) : b = b.take n ++ r ∧ v = leDec (b.take n) := by
+  unfold takeU at h
+  split at h
+  · injection h with h; injection h with h1 h2
+    subst h1; subst h2
+    exact ⟨(List.take_append_drop n b).symm, rfl⟩
+  · cases h
+
+theorem check_ok {b : Bool} {e : RomErr} (h : check b e = .ok ()) : b = true := by
+  unfold check at h; split at h <;> simp_all
+
+theorem bind_ok {α β : Type} {x : R α} {f : α → R β} {b : β} :
+    (x >>= f) = .ok b ↔ ∃ a, x = .ok a ∧ f a = .ok b := by
+  cases x <;> simp [bind, Except.bind]
+
+/-- two byte strings that the chain walk accepts from the same anchor (number of blocks, first block number,
+    expected hash of the first block) are equal — or two different blocks with the same digest are exhibited -/
+theorem walk_binding (c : CryptoOps) (alg : HashAlg) (hl : Nat) (dec : Nat → Bytes → Bytes) :
+    ∀ (k i : Nat) (expected rest₁ rest₂ out₁ out₂ : Bytes),
+      walk c alg hl dec k i expected rest₁ = .ok out₁ → walk c alg hl dec k i expected rest₂ = .ok out₂ →
+      rest₁ = rest₂ ∨ Break c := by
+  intro k
+  induction k with
+  | zero =>
+    intro i expected rest₁ rest₂ out₁ out₂ h₁ h₂
+    simp only [walk, bind_ok] at h₁ h₂
+    obtain ⟨_, _, _, a, _⟩ := h₁
+    obtain ⟨_, _, _, b, _⟩ := h₂
+    have a := check_ok a
+    have b := check_ok b
+    left
+    simp only [List.isEmpty_iff] at a b
+    rw [a, b]
+  | succ k ih =>
+    intro i expected rest₁ rest₂ out₁ out₂ h₁ h₂
+    simp only [walk, bind_ok] at h₁ h₂
+    obtain ⟨⟨blk₁, r₁⟩, t₁, _, hh₁, ⟨num₁, b₁⟩, u₁, _, _, ⟨next₁, pay₁⟩, n₁, more₁, w₁, _⟩ := h₁
+    obtain ⟨⟨blk₂, r₂⟩, t₂, _, hh₂, ⟨num₂, b₂⟩, u₂, _, _, ⟨next₂, pay₂⟩, n₂, more₂, w₂, _⟩ := h₂
+    have e₁ := takeB_ok t₁
+    have e₂ := takeB_ok t₂
+    have hh₁ := check_ok hh₁
+    have hh₂ := check_ok hh₂
+    simp only [beq_iff_eq] at hh₁ hh₂
+    by_cases hb : blk₁ = blk₂
+    · subst hb
+      have hu : (num₁, b₁) = (num₂, b₂) := by
+        have := u₁.symm.trans u₂; injection this
+      injection hu with _ hb'
+      subst hb'
+      have hn : (next₁, pay₁) = (next₂, pay₂) := by
+        have := n₁.symm.trans n₂; injection this
+      injection hn with hn' _
+      subst hn'
+      rcases ih (i + 1) next₁ r₁ r₂ more₁ more₂ w₁ w₂ with h | h
+      · left; rw [e₁.1, e₂.1, h]
+      · right; exact h
+    · right
+      exact Break.collision alg blk₁ blk₂ hb (hh₁.trans hh₂.symm)
+
+
+/-- keep block 0 of an exported file (header, hash, certificate block, signature) and replace everything after it:
+    if the loader still accepts, the replacement IS the exported blocks -- or a hash collision is exhibited -/
+theorem tamper_blocks_detected {c : CryptoOps} (hc : CryptoLaws c) (s : ObjState) (hg : Good c s) (wf : StateWF c s)
+    (dev : Dev) (obs : List SigOb) (hd : DevOK c dev s obs) (r : Rand) (rest' : Bytes) (res : RomOk)
+    (h : romLoad c dev (signedOf c s ++ (sigOf c s r ++ rest')) = .ok res) :
+    rest' = (chainOf c s).2.flatten ∨ Break c := by
+  have hhl := hg.hl
+  have hblocks := dataBlocks_mem (cmdStream s.cmds)
+  have hh1 : (chainOf c s).1.length = s.cfg.hashLen := buildChain_fst_length hc s _ _ rfl hhl (by simp) _ _
+  have hbc : 1 ≤ (hdrSpec s).blockCount := by simp only [hdrSpec, streamLen]; omega
+  have hb0 := parseBlock0_gen c dev.rotkh (hdrSpec s) (hdrSpec_wf s hg wf) s.cfg.hashLen hhl rfl rfl
+    (by simp only [hdrSpec]; split <;> simp) hbc (chainOf c s).1 s.cfg.cert (sigOf c s r) rest'
+    hh1 rfl (wf.sigLen _ _) _ obs hd.cert rfl (hc.verify_sign _ _ _ _)
+  have e : signedOf c s ++ (sigOf c s r ++ rest') =
+      encHeader (hdrSpec s) ++ ((chainOf c s).1 ++ (s.cfg.cert ++ (sigOf c s r ++ rest'))) := by
+    simp [signedOf, List.append_assoc]
+  rw [e] at h
+  unfold romLoad at h
+  simp only [bind_ok] at h
+  obtain ⟨b0, hp, stream, hw, _⟩ := h
+  rw [hb0] at hp
+  split at hp
+  · injection hp with hp
+    subst hp
+    have hg' := walk_buildChain hc s s.cfg.hashLen rfl hhl (decFn c dev s.cfg.timestamp s.cfg.hashLen)
+      (fun j b hb => encPayload_length hc s j b hb)
+      (fun j b hb => decFn_encPayload hc s hg dev hd.pck hd.rights hd.encrypted j b hb)
+      (dataBlocks (cmdStream s.cmds)) 1 hblocks (by
+        rw [dataBlocks_length, cmdStream_length, streamLen_eq]; have := wf.size; omega)
+    have hbcl : (hdrSpec s).blockCount = (dataBlocks (cmdStream s.cmds)).length := by
+      rw [dataBlocks_length, cmdStream_length]; rfl
+    have hts : (hdrSpec s).timestamp = s.cfg.timestamp := rfl
+    simp only [hbcl, hts] at hw
+    exact walk_binding c _ _ _ _ _ _ _ _ _ _ hw hg'
+  · cases hp
 
 end SpsdkVerif.Sb31
